@@ -26,7 +26,9 @@ TInit == /\ tid \in 1..NTraces /\ l = 1
 Adv == l' = l + 1 /\ tid' = tid
 Is(op) == l <= Len(T) /\ E.op = op
 Msgs == MsgsOf(cfg)
-Raises == \E k \in 1..Len(cfg.body) : cfg.body[k].k = "raise"
+Raises == \E k \in 1..Len(cfg.body) : cfg.body[k].k \in {"raise", "interrupt"}
+FirstRaise == LET S == {k \in 1..Len(cfg.body) : cfg.body[k].k \in {"raise", "interrupt"}} IN
+              cfg.body[CHOOSE k \in S : \A j \in S : k <= j].k
 
 TNew == /\ l = 1 /\ Is("new") /\ Adv
         /\ UNCHANGED <<vars, oterm, sync>>
@@ -60,7 +62,7 @@ TEnd == /\ l > 1 /\ l = Len(T) /\ Is("end") /\ Adv
         /\ Check(tid, l, "P.endframe", IF E.outcome = "normal" THEN "frame" ELSE E.exc,
                  ~Raises => (E.outcome = "normal" /\ EndFrameT(oterm, cfg.end)))
         /\ Note(tid, l, "A.outcome", sync => (pcM = "done" /\ outcome = E.outcome))
-        /\ Note(tid, l, "A.exc", E.sexc = "" /\ (E.outcome = "raised" => (Raises /\ E.exc = "BodyError")))
+        /\ Note(tid, l, "A.exc", E.sexc = "" /\ (E.outcome = "raised" => (Raises /\ E.exc = (IF FirstRaise = "raise" THEN "BodyError" ELSE "KeyboardInterrupt"))))
 
 TDone == /\ l = Len(T) + 1 /\ l' = l + 1 /\ tid' = tid /\ UNCHANGED <<vars, oterm, sync>> /\ Accept(tid)
 
